@@ -9,7 +9,7 @@
    (Combine over Go maps, rank, nest, set patterns, printing), are observed by
    running the same programs under different hash seeds (hook VERIF_HASH_SEED)
    and comparing value and printed bytes. *)
-From Arrai Require Import Base.Val Spec.SetAlg Eval.Interp Proofs.ValOrder Proofs.SetAlgP Proofs.PermP.
+From Arrai Require Import Base.Val Spec.SetAlg Eval.Interp Proofs.ValOrder Proofs.SetAlgP Proofs.PermP Proofs.FuelP.
 From Coq Require Import Permutation.
 
 Theorem C07_canonical_form_ignores_enumeration_order :
@@ -39,3 +39,9 @@ Example C07_probe :
   run_data 40 (ESetE [ELit (vint 3); ELit (vint 1); ELit (vint 2)]) =
   run_data 40 (ESetE [ELit (vint 2); ELit (vint 3); ELit (vint 1)]).
 Proof. vm_compute. reflexivity. Qed.
+
+(* ... and the value does not depend on how much fuel the evaluation was given *)
+Theorem C07_one_value_whatever_the_fuel :
+  forall n m e v v', run_data n e = Ok v -> run_data m e = Ok v' -> v = v'.
+Proof. exact run_data_fuel_independent. Qed.
+Print Assumptions C07_one_value_whatever_the_fuel.
